@@ -24,6 +24,7 @@ type SExpr struct {
 type QVar struct {
 	Name string
 	Type string
+	In   *SExpr // `forall x in s :: ...`: x ranges over the elements of slice s
 }
 
 func (e *SExpr) String() string {
@@ -91,6 +92,8 @@ type Contract struct {
 	NoOvf    string // reason if overflow obligations are assumed away in math mode
 	Requires []Clause
 	Ensures  []Clause
+	Callback map[string][]Clause // assumed postconditions of calls through a function-typed parameter
+	Assumed  []Clause // postconditions assumed at call sites but not checked on the body (listed as assumptions)
 	Modifies []string // component selectors; "*" = everything; empty = nothing
 	ModAll   bool
 	Loops    map[int]*LoopSpec
@@ -274,7 +277,7 @@ func (db *SpecDB) loadText(path, text, pkgHint string) error {
 					continue
 				}
 				w, r := splitWord(p)
-				params = append(params, QVar{w, strings.TrimSpace(r)})
+				params = append(params, QVar{Name: w, Type: strings.TrimSpace(r)})
 			}
 			body, err := parseSpecExpr(rest[eq+1:])
 			if err != nil {
@@ -309,7 +312,7 @@ func (db *SpecDB) loadText(path, text, pkgHint string) error {
 					continue
 				}
 				w, r := splitWord(p)
-				fd.Params = append(fd.Params, QVar{w, strings.TrimSpace(r)})
+				fd.Params = append(fd.Params, QVar{Name: w, Type: strings.TrimSpace(r)})
 			}
 			db.Funcs[fd.Name] = fd
 			db.Scan = append(db.Scan, fmt.Sprintf("uninterpreted function %s (%s:%d)", fd.Name, filepath.Base(path), l.n))
@@ -364,16 +367,20 @@ func (db *SpecDB) loadText(path, text, pkgHint string) error {
 					}
 					db.Scan = append(db.Scan, fmt.Sprintf("nooverflow-assumed %s::%s: %s", cur.Pkg, cur.Name, cur.NoOvf))
 				}
-			case "requires", "ensures":
+			case "requires", "ensures", "assumes":
 				e, err := parseSpecExpr(rest)
 				if err != nil {
 					return fail(l.n, "%v", err)
 				}
 				cl := Clause{Label: label, E: e, Src: rest}
-				if word == "requires" {
+				switch word {
+				case "requires":
 					cur.Requires = append(cur.Requires, cl)
-				} else {
+				case "ensures":
 					cur.Ensures = append(cur.Ensures, cl)
+				default:
+					cur.Assumed = append(cur.Assumed, cl)
+					db.Scan = append(db.Scan, fmt.Sprintf("assumed postcondition %s::%s [%s]: %s", cur.Pkg, cur.Name, label, rest))
 				}
 			case "modifies":
 				for _, m := range strings.Split(rest, ",") {
@@ -438,6 +445,21 @@ func (db *SpecDB) loadText(path, text, pkgHint string) error {
 				cur.Opaque = true
 			case "replay":
 				cur.Replay = strings.TrimSpace(rest)
+			case "callback-ensures":
+				col := strings.Index(rest, ":")
+				if col < 0 {
+					return fail(l.n, "callback-ensures <param>: <expr>")
+				}
+				e, err := parseSpecExpr(rest[col+1:])
+				if err != nil {
+					return fail(l.n, "%v", err)
+				}
+				if cur.Callback == nil {
+					cur.Callback = map[string][]Clause{}
+				}
+				pn := strings.TrimSpace(rest[:col])
+				cur.Callback[pn] = append(cur.Callback[pn], Clause{Label: label, E: e, Src: rest})
+				db.Scan = append(db.Scan, fmt.Sprintf("assumed about callback %s of %s::%s: %s", pn, cur.Pkg, cur.Name, strings.TrimSpace(rest[col+1:])))
 			case "targets":
 				for _, t := range strings.Split(rest, ",") {
 					cur.Targets = append(cur.Targets, strings.TrimSpace(t))
@@ -583,7 +605,7 @@ func lexSpec(s string) ([]tok, error) {
 			ts = append(ts, tok{"str", u})
 			i = j + 1
 		default:
-			ops := []string{"<==>", "==>", "::", "==", "!=", "<=", ">=", "&&", "||", ".(", "<", ">", "+", "-", "*", "/", "%", "!", "(", ")", "[", "]", ",", ".", ":", "?"}
+			ops := []string{"<==>", "==>", "::", "{", "}", "==", "!=", "<=", ">=", "&&", "||", ".(", "<", ">", "+", "-", "*", "/", "%", "!", "(", ")", "[", "]", ",", ".", ":", "?"}
 			found := false
 			for _, op := range ops {
 				if strings.HasPrefix(s[i:], op) {
@@ -646,12 +668,25 @@ func (p *sparser) expr() (*SExpr, error) {
 			if n.k != "id" {
 				return nil, fmt.Errorf("quantifier variable expected")
 			}
+			if p.isID("in") {
+				p.p++
+				se, err := p.or()
+				if err != nil {
+					return nil, err
+				}
+				vars = append(vars, QVar{Name: n.v, In: se})
+				if p.isOp(",") {
+					p.p++
+					continue
+				}
+				break
+			}
 			// type: tokens until , or ::
 			var ty strings.Builder
 			for !p.isOp(",") && !p.isOp("::") && p.peek().k != "eof" {
 				ty.WriteString(p.next().v)
 			}
-			vars = append(vars, QVar{n.v, ty.String()})
+			vars = append(vars, QVar{Name: n.v, Type: ty.String()})
 			if p.isOp(",") {
 				p.p++
 				continue
@@ -661,11 +696,27 @@ func (p *sparser) expr() (*SExpr, error) {
 		if err := p.expect("::"); err != nil {
 			return nil, err
 		}
+		// optional explicit triggers: forall x T :: {t1, t2} body
+		var trig []*SExpr
+		if p.isOp("{") {
+			p.p++
+			for !p.isOp("}") {
+				t, err := p.or()
+				if err != nil {
+					return nil, err
+				}
+				trig = append(trig, t)
+				if p.isOp(",") {
+					p.p++
+				}
+			}
+			p.p++
+		}
 		body, err := p.expr()
 		if err != nil {
 			return nil, err
 		}
-		return &SExpr{Op: q, Vars: vars, Args: []*SExpr{body}}, nil
+		return &SExpr{Op: q, Vars: vars, Args: append([]*SExpr{body}, trig...)}, nil
 	}
 	return p.imp()
 }
@@ -897,6 +948,11 @@ func (db *SpecDB) expandModifies() error {
 					continue
 				}
 				ref := strings.TrimPrefix(m, "@")
+				atAll := ""
+				if i := strings.Index(ref, " @ "); i >= 0 {
+					atAll = strings.TrimSpace(ref[i+3:])
+					ref = strings.TrimSpace(ref[:i])
+				}
 				var src *Contract
 				for _, d := range db.Contracts {
 					pn := d.Pkg[strings.LastIndex(d.Pkg, "/")+1:]
@@ -913,16 +969,35 @@ func (db *SpecDB) expandModifies() error {
 				}
 				pn := src.Pkg[strings.LastIndex(src.Pkg, "/")+1:]
 				for _, sm := range src.Modifies {
-					if strings.HasPrefix(sm, "@") || sm == "alloc" || strings.HasPrefix(sm, "map[") || strings.HasPrefix(sm, "G:") || strings.HasPrefix(sm, "*") {
+					if strings.HasPrefix(sm, "@") {
+						// nested reference: drop the source's object restriction (it names the source's parameters)
+						if i := strings.Index(sm, " @ "); i >= 0 {
+							sm = sm[:i]
+						}
+						// keep it resolvable from here: qualify a same-package reference
+						ref2 := strings.TrimPrefix(sm, "@")
+						if !strings.Contains(strings.SplitN(ref2, "(", 2)[0], ".") || strings.HasPrefix(ref2, "(") {
+							sm = "@" + pn + "." + ref2
+						}
+						out = append(out, sm)
+						continue
+					}
+					if sm == "alloc" || strings.HasPrefix(sm, "map[") || strings.HasPrefix(sm, "G:") || strings.HasPrefix(sm, "*") {
+						if sel, _ := splitModAt(sm); sel != sm {
+							sm = sel
+						}
 						out = append(out, sm)
 						continue
 					}
 					// Type.field -> pkg.Type.field unless already qualified
-					if sel, at := splitModAt(sm); strings.Count(sel, ".") == 1 && src.Pkg != c.Pkg {
+					// object-granular entries of the source name ITS parameters: imported coarsely
+					sel, _ := splitModAt(sm)
+					sm = sel
+					if strings.Count(sel, ".") == 1 && src.Pkg != c.Pkg {
 						sm = pn + "." + sel
-						if at != "" {
-							sm += " @ " + at
-						}
+					}
+					if atAll != "" && !strings.Contains(sm, " @ ") {
+						sm += " @ " + atAll
 					}
 					out = append(out, sm)
 				}
